@@ -129,7 +129,17 @@ def unit_link_files(eng, nfiles, kinds, settle_in):
             i = len(calls)
             calls.append((file, start, link_base_))
             if settle_in == i:
-                eng_.call(eng_.getattr(link_base_["promise"], "settle"), [K], {})
+                class BaseExpr(Lazy):
+                    """the '.link' expression: evaluated when the base promise is awaited"""
+                    def __init__(self):
+                        self.__dict__.update(typ="int", size=None, announced=None)
+
+                    @property
+                    def final(self):
+                        if "base" not in forced:
+                            forced.append("base")
+                        return K
+                eng_.call(eng_.getattr(link_base_["promise"], "settle"), [BaseExpr()], {})
             c, B = chunk_contract(eng_, "F%d" % i, kinds[i])
             finals.append(B)
             # the file defines a symbol that no statement uses: its value is still pending when the file has been compiled
@@ -159,8 +169,13 @@ def unit_link_files(eng, nfiles, kinds, settle_in):
             eng.prove("file%d-starts-where-the-previous-ends" % i, view(eng, c[1]) == want_base + off)
             off = off + slen(finals[i])
         eng.prove("image-is-the-files'-bytes-in-order", zbytes(code) == (finals[0] if len(finals) == 1 else z3.Concat(*finals)))
+        syms = [f for f in I["forced"] if f != "base"]
         eng.prove("every-definition-is-evaluated-before-the-call-returns(an error in a symbol nobody uses is reported inside the reporting scope)",
-                  sorted(I["forced"]) == list(range(nfiles)) and len(errors(eng)) == nfiles)
+                  sorted(syms) == list(range(nfiles)) and len(errors(eng)) == nfiles)
+        if settle_in is not None:
+            # a definition that needs the base (an alias of a label difference under '/', '>>') must find it known or being computed at top level,
+            # not start computing it from inside its own evaluation (a false recursive-definition)
+            eng.prove("the-link-base-expression-is-evaluated-before-any-definition-nobody-has-used-yet", I["forced"][:1] == ["base"])
     r = verify(eng, name, run, post, func="compiler.Compiler.compile_and_link_files")
     for o_ in r["obligations"]:
         o_["cfg"] = dict(kind="linkfiles")
@@ -269,7 +284,11 @@ def unit_compile_block(eng, context, base_settled, start_kind, end_scope=False):
 
         def c_compile_insn(eng_, insn, state):
             k = pick(eng_, CHUNK_KINDS, "insn_result")
-            eng_.I["handed"].append((insn, state))
+            eng_.I["handed"].append((insn, dict(state)))
+            if eng_.I.get("in_loop") is not None and pick(eng_, ["other", ".extern all"], "insn_is") == ".extern all":
+                # '.extern all' records itself in the state of its own statement (metacommands.extern): what follows in the block must see it
+                state["extern_all"] = insn
+                eng_.I["ext"] = insn
             if k == "none+error":
                 eng_.path.events.append(("error", "unknown-insn"))
                 return None
@@ -293,9 +312,11 @@ def unit_compile_block(eng, context, base_settled, start_kind, end_scope=False):
 
         def c_compile_label(eng_, label, addr, state):
             labels.append((label, addr, state))
+            eng_.prove("a-label-sees-the-'.extern all'-in-force(the one written earlier in this block, else the enclosing one)", state["extern_all"] is eng_.I["ext"])
 
         def c_compile_assignment(eng_, insn, state):
             assigns.append((insn, state))
+            eng_.prove("an-assignment-sees-the-'.extern all'-in-force(the one written earlier in this block, else the enclosing one)", state["extern_all"] is eng_.I["ext"])
 
         def c_set_link_address(eng_, address, state):
             eng_.I["set_link"].append((address, state))
@@ -321,7 +342,7 @@ def unit_compile_block(eng, context, base_settled, start_kind, end_scope=False):
         eng.assume(n >= 0)
         block = mk_token(eng, "CodeBlock", insns=SymObjList(n, factory))
         state0 = {"context": context, "link_base": lb, "compiler": comp, "filename": "f.mac", "internal_symbol_prefix": ".internal1.", "extern_all": None, "internal_symbols_list": []}
-        eng.I.update(comp=comp, start=start, labels=labels, assigns=assigns, handed=[], set_link=[], state0=state0, N0=N0, p=p)
+        eng.I.update(comp=comp, start=start, labels=labels, assigns=assigns, handed=[], set_link=[], state0=state0, N0=N0, p=p, ext=None)
 
         # ---- loop contract
         def inv(eng_, env):
@@ -334,7 +355,7 @@ def unit_compile_block(eng, context, base_settled, start_kind, end_scope=False):
             out = [("I1:error-or-address==start+bytes-so-far", z3.Or(err_cond(eng_), view(eng_, addr) == view(eng_, start) + slen(zbytes(view(eng_, data))))),
                    ("I3:local-prefix-is-.local<p>.-with-p-allocated-and-below-the-counter", z3.And(zstr_(lsp) == z3.Concat(z3.StringVal(".local"), z3.IntToStr(pfx_n), z3.StringVal(".")),
                                                                                           pfx_n >= N0, pfx_n < N, N > N0)),
-                   ("I5:state-otherwise-unchanged", all(st[k] is state0[k] for k in state0))]
+                   ("I5:state-otherwise-unchanged(and '.extern all' carried from statement to statement)", all(st[k] is state0[k] for k in state0 if k != "extern_all") and st["extern_all"] is eng_.I["ext"])]
             return out
 
         def havoc(eng_, env):
@@ -349,7 +370,9 @@ def unit_compile_block(eng, context, base_settled, start_kind, end_scope=False):
             comp.attrs["next_local_symbol_prefix"] = N
             env.assign("local_symbol_prefix", z3.Concat(z3.StringVal(".local"), z3.IntToStr(pn), z3.StringVal(".")))
             env.vars["__ghost0"] = dict(pfx_n=pn)
-            env.assign("state", {**state0, "insn": Opaque("prev-insn"), "emit_address": Opaque("prev-addr"), "local_symbol_prefix": Opaque("prev-prefix")})
+            ext = Opaque("earlier-.extern-all") if pick(eng_, ["no", "yes"], "extern_all_in_force") == "yes" else None
+            eng_.I["ext"] = ext
+            env.assign("state", {**state0, "extern_all": ext, "insn": Opaque("prev-insn"), "emit_address": Opaque("prev-addr"), "local_symbol_prefix": Opaque("prev-prefix")})
             sym_error_marker(eng_)
             eng_.I["in_loop"] = dict(addr=env.lookup("addr"), prefix=env.lookup("local_symbol_prefix"), pn=pn, N=N, env=env)
             del labels[:]
@@ -375,7 +398,7 @@ def unit_compile_block(eng, context, base_settled, start_kind, end_scope=False):
                 # I2: what the statement compiler of this iteration was handed
                 for tok, st in eng_.I["handed"]:
                     res.append(("I2:statement-is-handed-the-running-address-object-its-own-token-and-the-prefix-in-force",
-                                st["emit_address"] is il["addr"] and st["insn"] is tok and st["local_symbol_prefix"] is il["prefix"] and all(st[k] is state0[k] for k in state0)))
+                                st["emit_address"] is il["addr"] and st["insn"] is tok and st["local_symbol_prefix"] is il["prefix"] and all(st[k] is state0[k] for k in state0 if k != "extern_all")))
                 for lab, a_, st in labels:
                     res.append(("I2:label-is-bound-to-the-running-address-object-in-the-prefix-in-force", a_ is il["addr"] and st["local_symbol_prefix"] is il["prefix"] and st["insn"] is lab))
                 for ins, st in assigns:
